@@ -50,7 +50,7 @@ func specPool(tier string) int {
 }
 
 func (check) Rule() string {
-	return "per case: a type program (struct with config tags / *struct / inline struct / map[string]T / []T / [N]T / interface{} over leaves string bool int int8-64 uint uint8-64 float32/64 time.Duration *regexp.Regexp, pointers to them, four hand-written leaf types with Validate or Unpack and a struct with Validate; validate tags min max positive nonzero required; one struct field in seven addressed by a dotted tag `config:\"a<sep>b\"`, which makes the namespace a in between a setting of its own to put faults at; depth <= 4; the path separator <sep> of the case - \".\" (half), \"/\", \"::\" - is part of the program: the dotted tags are written with it and every read of the case (Unpack, getters, Child, Has, Remove, setters) uses it, while messages always have to spell paths with dots) drawn from a seed-determined pool (thorough: 3000 programs, bounds the reflect.StructOf types per worker), a data tree generated FROM the program (numbers as int64/uint64/float64/decimal string, durations as text or seconds, free data below interface{}) loaded with NewFrom(PathSep(\".\"), VarExp, MetaData{src-<case>}) which must Unpack into the type (else valid-pair-rejected). Then up to 10 single faults, stratified over the fault kinds applicable in the tree (object/list for primitive, primitive for object/list, bool<->number, unparsable int/uint/float/bool/duration/regexp, out of range for every sized integer/float32/float64/duration incl. 2^63 and 2^64 floats, negative into unsigned, tag validators min/max/positive/nonzero/required with empty/null/missing, failing Validate()/Unpack() of the hand-written types, a struct setting left out or present as null whose first validated member then fails on its zero value, references that do not resolve: a path missing at its first segment (${nope}, ${nope.missing}, ${nope.x.y}), at an intermediate or at the last segment below a namespace of the tree (${a.b.zz_nope.x}, ${a.b.zz_nope}), at an index behind a list of the tree (${l.5}, ${l.5.x}), through a primitive of the tree (${k.x}, ${k.x.y}, ${l.0.x.y}), a reference that resolves but to an object elsewhere in the tree where a primitive is expected (the setting holding the reference is the wrong typed one, not the object), self-referencing ${<path>}, a reference into a cycle of two helper settings (x:${y}, y:${x}; struct targets only, which do not read the helpers) - each either as the whole value (2 of 5) or inside a splice evaluating to a text (\"pre-${r}\", \"${r}/cache\"), a list (\"${r},extra\", \"[1, ${r}, 3]\") or an object (\"{zk: ${r}}\", \"{zk: {zm: [${r}]}}\") -, array too short/long; half of the reference faults are placed below an interface{} slot when the tree has one), each at one setting of the tree (struct fields, inline fields, map entries, list and array elements, below pointers, inside interface{} data). Every fault is observed on the configuration built directly and on one built by a randomly chosen other route: merge chains under the default policy (fault delivered by the later operand over an absent or placeholder setting / fault present first and the surroundings merged over it), AppendValues / PrependValues chains that cut the outermost list on the fault path into up to three operands (renumbering), NewFrom plus Remove of 1-3 extra elements in front of the fault in a list on the path (shifting), the input spelled in dotted keys (every edge into a non-empty dictionary or list folded into the key, \"a.b.c\":1 / \"a.l.0\":1 / \"a.l.1.k\":2 with lists spelled completely, or kept nested, decided per path; alone or as operands of the two default-policy chains; a quarter of the routed runs) so that namespaces and lists exist only implicitly, merges under ReplaceValues / ReplaceArrValues over an earlier operand holding the valid tree with every list on the fault path one element longer, a merge with FieldReplaceValues(<a dictionary on the fault path>) over an earlier operand holding the same tree with one more key in that dictionary (the dictionary then comes from the later operand as a whole, also for a member missing from it), a later operand giving the holder of the faulty setting both parts (a named setting added to the list the faulty element sits in, a first element added to the dictionary the faulty member sits in); the dotted spellings, the expansion routes, the mixed holders and the per-field replace get a fixed sixth of the routed runs each, the value written by Set*/SetChild, a faulty list or object written leaf by leaf with setters using full paths (the containers in between exist only as a by-product), an enclosing subtree attached by SetChild (fresh or taken from another tree), the key removed by Remove; and values produced by expansion (a fixed quarter of the routed runs): the subtree at the faulty setting, at its holder or further up the path is written as text in the flag/environment value syntax (bare, single and double quoted strings and keys, lists with and without brackets, nested lists and objects, null members) and the setting holds \"${ENV_n}\" served by a Resolve callback given to every read, or a splice whose middle piece is served by the callback or by a top-level helper setting, stored directly or delivered by a later merge operand - the list or object exists only while it is read, the fault sits at it (length, validator, type), at a member missing from it, or below it at any depth. The valid twin of every routed history must still unpack (for expanded values a twin that does not unpack is only counted: a number written as text is no duration). Observations: Unpack (with and without PathSep), the getters that must fail for the fault (dotted name, name+idx, or relative to an intermediate Child), Unpack of an intermediate Child into the matching sub-type; for reference faults also the calls that pass through the failing reference or measure it (Has, Remove, Set* of a name below it, CountField of it; judged when they fail). Explicit nulls go half of the time through the routes where the null arrives from a later operand than its holder. Plus, per case, 3 faults that make the load fail (NewFrom or Merge of the valid tree with one setting replaced by a text with broken ${ syntax or by a chan/func value, or with a primitive setting spelled a second time as a namespace \"k.zz_dup\": the error must name the full dotted path of that setting - either spelling for the duplicate - and the source), 2 setter calls with an index beyond MaxIdx(10) (on a name absent from a dictionary of the tree and on a list of the tree: the error must name the list setting; the source where the list exists), 6 reads of settings that do not exist (a key not in a dictionary of the tree, an index behind a list of the tree, names below those; dotted, name+idx, through a Child handle; any getter) whose error must name the first missing setting or a longer prefix of the request, and carry the source; and ~600 calls driving the error paths of Bool/Int/Uint/Float/String/Child, Has, CountField, Remove, Set*, SetChild, NewFrom, Merge and Unpack (missing, through primitives, through failing references, wrong types, unsupported values and targets, non-string keys, duplicate keys, broken ${ syntax, failing resolvers). Distinct = distinct (type program and tree shape, fault kind, depth class, route)."
+	return "per case: a type program (struct with config tags / *struct / inline struct / map[string]T / []T / [N]T / interface{} over leaves string bool int int8-64 uint uint8-64 float32/64 time.Duration *regexp.Regexp, pointers to them, four hand-written leaf types with Validate or Unpack and a struct with Validate; validate tags min max positive nonzero required; one struct field in seven addressed by a dotted tag `config:\"a<sep>b\"`, which makes the namespace a in between a setting of its own to put faults at; depth <= 4; the path separator <sep> of the case - \".\" (half), \"/\", \"::\" - is part of the program: the dotted tags are written with it and every read of the case (Unpack, getters, Child, Has, Remove, setters) uses it, while messages always have to spell paths with dots) drawn from a seed-determined pool (thorough: 3000 programs, bounds the reflect.StructOf types per worker), a data tree generated FROM the program (numbers as int64/uint64/float64/decimal string, durations as text or seconds, free data below interface{}) loaded with NewFrom(PathSep(\".\"), VarExp, MetaData{src-<case>}) which must Unpack into the type (else valid-pair-rejected). Then up to 10 single faults, stratified over the fault kinds applicable in the tree (object/list for primitive, primitive for object/list, bool<->number, unparsable int/uint/float/bool/duration/regexp, out of range for every sized integer/float32/float64/duration incl. 2^63 and 2^64 floats, negative into unsigned, tag validators min/max/positive/nonzero/required with empty/null/missing, failing Validate()/Unpack() of the hand-written types, a struct setting left out or present as null where exactly ONE member is invalid on its zero value (several invalid members, zero arrays of validating elements, nested structs: not generated - the variant would carry more than one fault), references that do not resolve: a path missing at its first segment (${nope}, ${nope.missing}, ${nope.x.y}), at an intermediate or at the last segment below a namespace of the tree (${a.b.zz_nope.x}, ${a.b.zz_nope}), at an index behind a list of the tree (${l.5}, ${l.5.x}), through a primitive of the tree (${k.x}, ${k.x.y}, ${l.0.x.y}), a reference that resolves but to an object elsewhere in the tree where a primitive is expected (the setting holding the reference is the wrong typed one, not the object), self-referencing ${<path>}, a reference into a cycle of two helper settings (x:${y}, y:${x}; struct targets only, which do not read the helpers) - each either as the whole value (2 of 5) or inside a splice evaluating to a text (\"pre-${r}\", \"${r}/cache\"), a list (\"${r},extra\", \"[1, ${r}, 3]\") or an object (\"{zk: ${r}}\", \"{zk: {zm: [${r}]}}\") -, array too short/long; half of the reference faults are placed below an interface{} slot when the tree has one), each at one setting of the tree (struct fields, inline fields, map entries, list and array elements, below pointers, inside interface{} data). Every fault is observed on the configuration built directly and on one built by a randomly chosen other route: merge chains under the default policy (fault delivered by the later operand over an absent or placeholder setting / fault present first and the surroundings merged over it), AppendValues / PrependValues chains that cut the outermost list on the fault path into up to three operands (renumbering), NewFrom plus Remove of 1-3 extra elements in front of the fault in a list on the path (shifting), the input spelled in dotted keys (every edge into a non-empty dictionary or list folded into the key, \"a.b.c\":1 / \"a.l.0\":1 / \"a.l.1.k\":2 with lists spelled completely, or kept nested, decided per path; alone or as operands of the two default-policy chains; a quarter of the routed runs) so that namespaces and lists exist only implicitly, merges under ReplaceValues / ReplaceArrValues over an earlier operand holding the valid tree with every list on the fault path one element longer, a merge with FieldReplaceValues(<a dictionary on the fault path>) over an earlier operand holding the same tree with one more key in that dictionary (the dictionary then comes from the later operand as a whole, also for a member missing from it), a later operand giving the holder of the faulty setting both parts (a named setting added to the list the faulty element sits in, a first element added to the dictionary the faulty member sits in); the dotted spellings, the expansion routes, the mixed holders and the per-field replace get a fixed sixth of the routed runs each, the value written by Set*/SetChild, a faulty list or object written leaf by leaf with setters using full paths (the containers in between exist only as a by-product), an enclosing subtree attached by SetChild (fresh or taken from another tree), the key removed by Remove; and values produced by expansion (a fixed quarter of the routed runs): the subtree at the faulty setting, at its holder or further up the path is written as text in the flag/environment value syntax (bare, single and double quoted strings and keys, lists with and without brackets, nested lists and objects, null members) and the setting holds \"${ENV_n}\" served by a Resolve callback given to every read, or a splice whose middle piece is served by the callback or by a top-level helper setting, stored directly or delivered by a later merge operand - the list or object exists only while it is read, the fault sits at it (length, validator, type), at a member missing from it, or below it at any depth. The valid twin of every routed history must still unpack (for expanded values a twin that does not unpack is only counted: a number written as text is no duration). Observations: Unpack (with and without PathSep), the getters that must fail for the fault (dotted name, name+idx, or relative to an intermediate Child), Unpack of an intermediate Child into the matching sub-type; half of the runs (not on expanded values) also read the fault from a namespace on the fault path CAPTURED as *ucfg.Config by a sequence of Unpack calls into a struct { C *ucfg.Config `config:\"<key>\"` } (taken at the holder of the namespace): the other configuration (the same settings without the faulty one, own source) first and the faulty one second, a Child handle of the other configuration pre-filled and the faulty one unpacked over it, the faulty one first and the other second, or the faulty one alone - then Unpack of the captured configuration into the matching sub-type and a failing getter with the relative name: full dotted path and source as everywhere (a capture step that fails, or a captured read without error, is only counted); for reference faults also the calls that pass through the failing reference or measure it (Has, Remove, Set* of a name below it, CountField of it; judged when they fail). Explicit nulls go half of the time through the routes where the null arrives from a later operand than its holder. Plus, per case, 3 faults that make the load fail (NewFrom or Merge of the valid tree with one setting replaced by a text with broken ${ syntax or by a chan/func value, or with a primitive setting spelled a second time as a namespace \"k.zz_dup\": the error must name the full dotted path of that setting - either spelling for the duplicate - and the source), 2 setter calls with an index beyond MaxIdx(10) (on a name absent from a dictionary of the tree and on a list of the tree: the error must name the list setting; the source where the list exists), 6 reads of settings that do not exist (a key not in a dictionary of the tree, an index behind a list of the tree, names below those; dotted, name+idx, through a Child handle; any getter) whose error must name the first missing setting or a longer prefix of the request, and carry the source; and ~600 calls driving the error paths of Bool/Int/Uint/Float/String/Child, Has, CountField, Remove, Set*, SetChild, NewFrom, Merge and Unpack (missing, through primitives, through failing references, wrong types, unsupported values and targets, non-string keys, duplicate keys, broken ${ syntax, failing resolvers). Distinct = distinct (type program and tree shape, fault kind, depth class, route)."
 }
 
 func (check) Assumptions() []string {
@@ -60,13 +60,14 @@ func (check) Assumptions() []string {
 		"merge chains give every operand its own source src-<case>-op<k>: the exact operand is demanded whenever a value exists at the faulty setting (a primitive, the text of a reference or splice, a list, an object, or an explicit null - it was written in one operand, and a validator failing because of it must point there: every route delivers it by one operation); when nothing exists there (absent: the error is raised on behalf of the holder; the holder's source is demanded where the route knows that the holder comes from one operand, i.e. a dictionary replaced as a whole), for the lenient list-for-object kind, and for a dictionary merged key by key from two operands (ReplaceArrValues over an existing dictionary) any source of the chain is accepted",
 		"a value produced by expansion belongs to the setting holding the expression: errors at and below it must show that setting's source and continue its dotted path. Texts are generated so that the value parser reads them back as the tree they were written from (checked with parse.Value as a filter on the generator, not as an oracle; a non-negative integer comes back unsigned); empty lists and objects, a text that is just null, and strings containing '$' are not written as text",
 		"a read of a setting that does not exist: the error may name the first missing setting on the requested path or any longer prefix of the request (which of them is not pinned down); calls passing through a failing reference (Has, Remove, Set*, CountField) need not fail (Has reports a missing reference as absent), only their errors are judged",
+		"a namespace captured as *ucfg.Config keeps its place: whatever sequence of Unpack calls filled the field (view, private merged copy), errors read from it name the full dotted path from the root of the configuration the setting was loaded with; where nothing exists at the faulty setting any source of the two configurations is accepted (the captured namespace is merged from both)",
 		"single fault only: all other settings conform to the type, so which of several guilty settings is named cannot arise; keys never contain '.', '/', ':', quotes or '$', and are never numeric (the tag of a dotted field is two such keys joined by the case's separator)",
 		"load-time failures (broken expression syntax, unsupported Go value, a key spelled twice) are failures caused by one setting of the input and are judged like the others although the statement's list of fault kinds does not name them: a partial path ('1' for 'a.1', 'a.b' for 'x.a.b') looks like a full one and names a different place; for the duplicate either spelling is accepted",
 		"outside / not generated: panics of unsupported inputs (C07), uintptr targets (not a supported target kind: a string into uintptr is refused as unsupported), invalid defaults pre-filled in the TARGET (pointers, untouched slice elements: not settings of the configuration), the filler elements of a list gap (never loaded, so no source to report; C18 tracks it), errors of RegisterValidator, of the YAML/JSON/HJSON decoders, the OS and the flag value syntax (not calls on a configuration / front-end syntax), a reference to a LIST where an array of another length or a validated list is expected (length and validator belong to both settings), the wording of messages (\"required 'object', but found 'object'\"), list-for-object and object-for-slice (documented as no failures)",
 		"target types never put pointers inside slices or maps, never point to maps, slices or arrays, use arrays only as struct fields and *regexp.Regexp only as a struct field (other shapes are C06/C07 findings)",
 		"a list where an object is expected is not clearly an error by the documentation (a list is a Config object): if Unpack accepts it this is only counted; if it fails the error must name the setting or one below it",
 		"the source is not demanded where no value exists that could carry it (a member of an absent struct) nor for the lenient list-for-object kind; for an absent or null setting with a required tag it is demanded from the holder (the library attaches the holder's source there); a struct setting present as null is a value loaded with a source, so errors about its members must show one",
-		"signatures: <problem>:<fault kind>:<target shape>[+inline][+from-child]:<depth class>[:only-via-<route>] (the suffix when the directly built configuration does not show the problem under the same views); fault-not-detected carries no depth class (no message exists that could misname anything); error-names-wrong-source (the source of another operand of the chain) extends the problem list; predicates that hold across kinds, shapes and depths get their own signature: ...:interface-target (the enclosing interface{} slot is named instead of the leaf inside), ...:drops-struct-key (the key of an absent struct is left out of the path of its member), <problem>:<kind>:through-<call> (a call passing through a failing reference), error-lacks-source:value-inside-expanded-container:via-<route> and error-lacks-source:expanded-list-or-object-itself:via-<route> (expansion routes expand-resolver|expand-splice @self|@holder|@ancestor: where the expanded value sits relative to the setting to be named), error-lacks-source:<kind>:container-implied-by-setters, error-names-wrong-source:failing-reference:list-target, error-names-wrong-source:<kind>:list-replaced-as-a-whole:only-via-merge-replace-arr, error-lacks-source:required-in-null-struct, error-names-wrong-path:missing-read:<what is missing>:<top-level|nested>-holder:<form>:<front|middle>-of-path-dropped|path-spelled-with-read-separator, <problem>:<kind>:path-spelled-with-read-separator, <fault-not-detected|error-names-wrong-path|error-names-wrong-source>:<unresolvable-reference|cyclic-reference|primitive-for-object|...>:dotted-tag-namespace (the fault at the namespace a dotted tag reaches through is swallowed or turned into an absent member), error-names-wrong-path:reference-to-object-for-primitive:names-referenced-setting (+ error-names-wrong-source:...:source-of-referenced-setting), error-names-wrong-source:<kind>:explicit-null, error-names-wrong-source:<kind>:dictionary-replaced-as-a-whole:only-via-merge-field-replace, error-names-wrong-path:<kind>:mixed-holder-named-instead-of-its-setting, error-lacks-path:load-time:<broken-expression|unsupported-value|duplicate-key>:<in-dict|in-list>[-top]:<names-no-setting|front-of-path-dropped>, error-lacks-source:load-time:<kind>, error-lacks-path|error-lacks-source:setter-index-out-of-range:<absent-setting|existing-list>; reference kinds carry the form of the splice (+splice-text, +splice-list, +splice-object)",
+		"signatures: <problem>:<fault kind>:<target shape>[+inline][+from-child]:<depth class>[:only-via-<route>] (the suffix when the directly built configuration does not show the problem under the same views); fault-not-detected carries no depth class (no message exists that could misname anything); error-names-wrong-source (the source of another operand of the chain) extends the problem list; predicates that hold across kinds, shapes and depths get their own signature: ...:interface-target (the enclosing interface{} slot is named instead of the leaf inside), ...:drops-struct-key (the key of an absent struct is left out of the path of its member), <problem>:<kind>:through-<call> (a call passing through a failing reference), error-lacks-source:value-inside-expanded-container:via-<route> and error-lacks-source:expanded-list-or-object-itself:via-<route> (expansion routes expand-resolver|expand-splice @self|@holder|@ancestor: where the expanded value sits relative to the setting to be named), error-lacks-source:<kind>:container-implied-by-setters, error-names-wrong-source:failing-reference:list-target, error-names-wrong-source:<kind>:list-replaced-as-a-whole:only-via-merge-replace-arr, error-lacks-source:required-in-null-struct, error-names-wrong-path:missing-read:<what is missing>:<top-level|nested>-holder:<form>:<front|middle>-of-path-dropped|path-spelled-with-read-separator, <problem>:<kind>:path-spelled-with-read-separator, <fault-not-detected|error-names-wrong-path|error-names-wrong-source>:<unresolvable-reference|cyclic-reference|primitive-for-object|...>:dotted-tag-namespace (the fault at the namespace a dotted tag reaches through is swallowed or turned into an absent member), error-names-wrong-path:reference-to-object-for-primitive:names-referenced-setting (+ error-names-wrong-source:...:source-of-referenced-setting), error-names-wrong-source:<kind>:explicit-null, error-names-wrong-source:<kind>:dictionary-replaced-as-a-whole:only-via-merge-field-replace, error-names-wrong-path:<kind>:mixed-holder-named-instead-of-its-setting, error-lacks-path:load-time:<broken-expression|unsupported-value|duplicate-key>:<in-dict|in-list>[-top]:<names-no-setting|front-of-path-dropped>, error-lacks-source:load-time:<kind>, error-lacks-path|error-lacks-source:setter-index-out-of-range:<absent-setting|existing-list>, <error-names-wrong-path|error-lacks-path>:captured-config:path-relative-to-the-captured-namespace and <problem>:<kind>:read-from-captured-config (views Captured.Unpack / Captured.<getter>); reference kinds carry the form of the splice (+splice-text, +splice-list, +splice-object)",
 		"not demanded: Error.Path(), the wording, which Reason is used, errors of the YAML/JSON/HJSON syntax decoders and of the OS; whether the typed-error drive calls fail at all (only counted: drive_no_error)",
 		"panics are reported (panic:<entry point>) but inputs known to panic (C07: Unpack(&interface{}), negative idx, nil and unaddressable targets, complex values) are not generated",
 	}
@@ -513,6 +514,7 @@ func (cs *caseState) observe(rt route, T *model.Node, pos *position, f fault, ba
 	for k := 0; k < 4; k++ {
 		sources = append(sources, fmt.Sprintf("%s-op%d", cs.base, k))
 	}
+	capRel := "" // while a captured configuration is read: the path of the fault relative to it
 	report := func(problem, shape, entry, msg string, named []string) {
 		key := entry + "|" + problem
 		seen[key] = true
@@ -543,6 +545,11 @@ func (cs *caseState) observe(rt route, T *model.Node, pos *position, f fault, ba
 			// the holder with both a list and a dictionary part is named
 			// instead of its element or member
 			sig = problem + ":" + f.kind + ":mixed-holder-named-instead-of-its-setting"
+		case strings.HasPrefix(entry, "Captured.") && (problem == "error-names-wrong-path" || problem == "error-lacks-path") && hasToken(msg, capRel, true):
+			// the path starts at the captured namespace instead of the root
+			sig = problem + ":captured-config:path-relative-to-the-captured-namespace"
+		case strings.HasPrefix(entry, "Captured."):
+			sig = problem + ":" + f.kind + ":read-from-captured-config"
 		case strings.HasPrefix(shape, "through-"):
 			// a call that passes through the failing reference or measures it:
 			// what matters is the call and how the reference fails
@@ -606,7 +613,7 @@ func (cs *caseState) observe(rt route, T *model.Node, pos *position, f fault, ba
 			report("fault-not-detected", shape, entry, "<no error>", nil)
 			return
 		}
-		if p := typed(res, strings.TrimPrefix(entry, "Child."), err, ctx()); p != "" {
+		if p := typed(res, strings.TrimPrefix(strings.TrimPrefix(entry, "Child."), "Captured."), err, ctx()); p != "" {
 			seen[entry+"|"+p] = true
 		}
 		msg := errText(err)
@@ -714,6 +721,127 @@ func (cs *caseState) observe(rt route, T *model.Node, pos *position, f fault, ba
 			}
 		}
 	}
+	// the fault read from a namespace captured as *ucfg.Config by a sequence
+	// of Unpack calls (see capture.go)
+	if len(pos.path) >= 2 && !strings.HasPrefix(rt.name, "expand-") && r.Intn(2) == 0 {
+		var js []int
+		for j := 1; j < len(pos.path); j++ {
+			if n := getNode(T, pos.path[:j]); !pos.path[j-1].isIdx && n != nil && n.Kind == model.KSub {
+				js = append(js, j)
+			}
+		}
+		if len(js) > 0 {
+			j := js[r.Intn(len(js))]
+			a := pos.path[:j]
+			seq := captureSequences[r.Intn(len(captureSequences))]
+			var subType reflect.Type
+			if pp := cs.byPath[pathStr(a)]; pp != nil && pp.sp != nil && (pp.sp.kind == kStruct || pp.sp.kind == kMap) &&
+				!(strings.HasPrefix(f.kind, "validator-") && j > pos.tagHolder) {
+				subType = pp.sp.baseType()
+			}
+			var C *ucfg.Config
+			stepFailed := ""
+			var serr error
+			panicked, pv, where := harness.Safe(func() {
+				// the other configuration: the same settings without the faulty one
+				A, err := ucfg.NewFrom(without(T, pos.path, nil).ToGo(), baseOpts(cs.base+"-op3")...)
+				if err != nil {
+					stepFailed, serr = "NewFrom", err
+					return
+				}
+				holder := func(c *ucfg.Config) (*ucfg.Config, error) {
+					if len(a) == 1 {
+						return c, nil
+					}
+					return c.Child(cs.rd(pathStr(a[:len(a)-1])), -1, gopts...)
+				}
+				t := reflect.New(captureType(a[len(a)-1].key))
+				unpack := func(c *ucfg.Config) bool {
+					h, err := holder(c)
+					if err == nil {
+						err = h.Unpack(t.Interface(), gopts...)
+					}
+					if err != nil {
+						stepFailed, serr = "Unpack", err
+					}
+					return err == nil
+				}
+				ok := true
+				switch seq {
+				case "defaults-then-faulty":
+					ok = unpack(A) && unpack(b.cfg)
+				case "child-handle-then-faulty":
+					ch, err := A.Child(cs.rd(pathStr(a)), -1, gopts...)
+					if err != nil {
+						stepFailed, serr = "Child", err
+						return
+					}
+					t.Elem().Field(0).Set(reflect.ValueOf(ch))
+					ok = unpack(b.cfg)
+				case "faulty-then-defaults":
+					ok = unpack(b.cfg) && unpack(A)
+				default:
+					ok = unpack(b.cfg)
+				}
+				if ok {
+					C, _ = t.Elem().Field(0).Interface().(*ucfg.Config)
+				}
+			})
+			res.Eval(4)
+			switch {
+			case panicked:
+				res.Violate("panic:Unpack", "capturing '%s' as *Config (%s): panic %q at %s; %s", pathStr(a), seq, clip(pv, 300), where, ctx())
+			case stepFailed != "":
+				// capturing does not read the values: whether it can fail is
+				// not this property's claim, the error must be typed
+				typed(res, stepFailed, serr, ctx())
+				res.Ev("capture_step_failed", 1)
+				res.SetAdd("capture_step_failed", seq+"|"+stepFailed+"|"+f.kind)
+			case C != nil:
+				res.Ev("faults_read_from_captured_config", 1)
+				res.SetAdd("capture_sequence", seq)
+				res.SetAdd("capture_sequence_x_kind", seq+"|"+f.kind)
+				capRel = pathStr(pos.path[j:])
+				// the captured namespace may be merged from both configurations:
+				// where nothing exists at the setting any of their sources will do
+				savedExact := exact
+				if f.parentRaised {
+					exact = ""
+				}
+				if subType != nil {
+					var uerr error
+					panicked, pv, where := harness.Safe(func() { uerr = C.Unpack(reflect.New(subType).Interface(), uo...) })
+					res.Eval(1)
+					res.SetAdd("entry_point", "Captured+Unpack")
+					switch {
+					case panicked:
+						res.Violate("panic:Unpack", "Unpack of the captured '%s' (%s): panic %q at %s; %s", pathStr(a), seq, clip(pv, 300), where, ctx())
+					case uerr == nil:
+						res.Ev("captured_fault_without_error", 1)
+					default:
+						judge("Captured.Unpack", pos.shape()+"+from-captured", uerr)
+					}
+				}
+				if len(f.getters) > 0 {
+					gn := f.getters[r.Intn(len(f.getters))]
+					var gerr error
+					panicked, pv, where := harness.Safe(func() { gerr = getterByName(gn).f(C, cs.rd(capRel), -1, gopts...) })
+					res.Eval(1)
+					res.SetAdd("entry_point", "Captured+"+gn)
+					switch {
+					case panicked:
+						res.Violate("panic:"+gn, "%s(%q) on the captured '%s' (%s): panic %q at %s; %s", gn, capRel, pathStr(a), seq, clip(pv, 300), where, ctx())
+					case gerr == nil:
+						res.Ev("captured_fault_without_error", 1)
+					default:
+						judge("Captured."+gn, "getter-"+gn+"+from-captured", gerr)
+					}
+				}
+				capRel, exact = "", savedExact
+			}
+		}
+	}
+
 	// a failing reference seen by the calls that have to pass through it or
 	// measure it: the failure is the reference's, whatever the call
 	if strings.Contains(f.kind, "reference") {
